@@ -188,8 +188,15 @@ def _stim(draw, cfg, tier):
     vb = (draw(st.integers(0, nr - 1)), draw(st.integers(0, nb - 1)))
     depth = cfg["ctrl"].get("cmd_buffer_depth", 8)
 
+    # the small row / column indices used below are mapped onto rows and columns spread over the whole device (low, high, middle):
+    # liveness must not depend on which address bits are set
+    nrows, ncolw = 1 << cfg["rowbits"], 1 << (cfg["colbits"] - align)
+    rowmap = draw(st.sampled_from([[0, 1, 2, 3], [nrows - 1, nrows >> 1, 0, (nrows >> 1) - 1], [nrows - 1, nrows - 2, nrows >> 1, 1],
+                                   [5, nrows - 1, (nrows >> 1) + 1, nrows >> 2]]))
+    colmap = draw(st.sampled_from([[0, 1, 2, 3], [ncolw - 1, ncolw >> 1, 0, 1], [ncolw - 1, ncolw - 2, (ncolw >> 1) + 1, ncolw >> 2]]))
+
     def mkop(we, rk, bk, row, cw, gap=0):
-        op = dict(we=we, addr=am.encode(rk, bk, row, cw << align), gap=gap)
+        op = dict(we=we, addr=am.encode(rk, bk, rowmap[row % 4], colmap[cw % 4] << align), gap=gap)
         if we:
             op.update(data=draw(st.integers(0, (1 << W) - 1)), be=full, lead=0)
         return op
